@@ -125,7 +125,7 @@ def correspond(ctx, exe, n_specs, files=True):
     rng = random.Random(ctx.rng.random())
     dist = collections.Counter()
     try:
-        wlines, wexp, rlines, rexp = [], [], [], []
+        wlines, wexp, rlines, rexp, hlines = [], [], [], [], []
         for i in range(n_specs):
             spec = gen.gen_spec(rng)
             cfg = spec['config']
@@ -134,6 +134,8 @@ def correspond(ctx, exe, n_specs, files=True):
             except mdl.Unsupported: dist['skipped-unsupported-value'] += 1; continue
             wlines.append('W\t' + '\t'.join(toks)); wexp.append((spec, res))
             dist['write:' + orc.cfg_class(cfg, bool(spec['simulator']))] += 1
+            if cfg.get('mesh', 'infile') == 'infile' and not cfg.get('xp') and isinstance(res, dict):
+                hlines.append((spec, '\t'.join(toks[3:])))
             if isinstance(res, dict):
                 # the files read back by the implementation and by the model (a binary mesh pair is left out on both sides)
                 got = impl_read(os.path.join(d, 'model.dat'), orc.mesh_arg('ascii', d) if cfg.get('mesh') == 'ascii' else '')
@@ -177,6 +179,18 @@ def correspond(ctx, exe, n_specs, files=True):
             d = mdl.diff(m[1][0], got[1][0])
             if d: ctx.disagreement('model-read-vs-t2data.read', {'spec': spec}, d, 'model vs implementation')
         ctx.corr_cases('model-read-vs-t2data.read', len(rlines), **dict(dist))
+        # the model alone: hypotheses of t2data_read_write_partial met by generated objects; write/read/write/read/write
+        hout = run_drv(exe, ['H\t' + t for _, t in hlines])
+        iout = run_drv(exe, ['I\t' + t for _, t in hlines])
+        names = ['only-covered-sections', 'writes', 'no-extra-precision', 'end-keyword', 'title', 'chain_ok', 'all']
+        met = collections.Counter()
+        for (spec, _), h, i in zip(hlines, hout, iout):
+            for nm, b in zip(names, h): met[nm] += (b == '1')
+            if len(h) == 7 and h[0] == '1' and h[6] == '0': met['covered-but-not-met'] += 1
+            if i != '11':
+                ctx.disagreement('model-write-read-cycles', {'spec': spec}, 'second file = first up to trailing blanks, third = second: %s' % i, 'expected 11')
+        ctx.corr_cases('model-write-read-cycles', len(hlines))
+        ctx.hyp_met['t2data_read_write_partial'] = dict(objects=len(hlines), **{k: met[k] for k in names + ['covered-but-not-met']})
     finally:
         shutil.rmtree(tmp, ignore_errors=True)
 
@@ -262,6 +276,35 @@ def oracle_shard(args):
     return out
 
 
+def fortran_shard(args):
+    seed, n, repo = args
+    sys.path.insert(0, repo)
+    rng = random.Random(seed)
+    out = {'n': 0, 'ood': 0, 'fails': []}
+    for i in range(n):
+        spec = gen.fortran_spec(rng)
+        try: fails, text = orc.run_fortran(spec)
+        except orc.OutOfDomain: out['ood'] += 1; continue
+        out['n'] += 1
+        for f in fails: out['fails'].append((spec, f))
+    return out
+
+
+def oracle_fortran(ctx, n):
+    shards = SHARDS
+    per = (n + shards - 1) // shards
+    base = ctx.rng.randrange(1 << 30)
+    with ProcessPoolExecutor(max_workers=shards) as ex:
+        outs = list(ex.map(fortran_shard, [(base + i, per, ctx.repo) for i in range(shards)]))
+    total = sum(o['n'] for o in outs)
+    for o in outs:
+        for spec, f in o['fails']:
+            ctx.failure('oracle-fortran-style-files', classify(f, spec['config'], bool(spec['simulator'])), {'fortran_spec': spec},
+                        '%s %s: %s' % f, 'a file from an independent Fortran-style writer reads as what it says, then obeys the round trip statement')
+    ctx.evaluations += total
+    ctx.oracle_cases('oracle-fortran-style-files', total, out_of_domain=sum(o['ood'] for o in outs))
+
+
 def oracle(ctx, n, name='oracle-generated-objects'):
     shards = SHARDS
     per = (n + shards - 1) // shards
@@ -330,6 +373,8 @@ def run(ctx):
     oracle_witnesses(ctx)
     oracle(ctx, 40000 if ctx.thorough else 2400)
     ctx.log('oracle (generated) done')
+    oracle_fortran(ctx, 6000 if ctx.thorough else 400)
+    ctx.log('oracle (fortran-style files) done')
     oracle_files(ctx)
     ctx.log('oracle (files) done')
 
@@ -342,6 +387,11 @@ def replay(ctx, data):
     inp = data.get('input') or {}
     if 'spec' in inp:
         try: fails = orc.run_spec(inp['spec'])
+        except orc.OutOfDomain: return False
+        for f in fails: print('replay:', f)
+        return bool(fails)
+    if 'fortran_spec' in inp:
+        try: fails, _ = orc.run_fortran(inp['fortran_spec'])
         except orc.OutOfDomain: return False
         for f in fails: print('replay:', f)
         return bool(fails)
